@@ -274,7 +274,7 @@ func ruleJSONLEAFCLASS(c *Ctx, r *Report) {
 		return
 	}
 	wildGuard := func(f *ssa.Function) (string, string) {
-		paths, _ := c.enumPathsInl(f, 5000)
+		paths, _ := c.enumPathsOpt(f, 20000, c.inlBool())
 		for _, p := range paths {
 			if p.Ret == nil {
 				continue
